@@ -1668,17 +1668,17 @@ def run(ck):
         progs.append(cj["program"])
         origin.append("corpus:" + os.path.basename(path))
     ncorpus = len(progs)
-    for _ in range(ck.n(150, 2500)):
+    for _ in range(ck.n(170, 2500)):
         progs.append(gen_program(rng, big=(not ck.quick) and rng.random() < 0.4))
         origin.append("random")
     nrandom = len(progs) - ncorpus
     # confusable constants in key and collected columns (strengthened after seeding)
-    nconf = ck.n(60, 900)
+    nconf = ck.n(70, 900)
     for _ in range(nconf):
         progs.append(gen_conf_program(rng))
         origin.append("confusable")
     # built-in atoms whose output variables are group keys / reducer arguments (round 2)
-    nbi = ck.n(40, 700)
+    nbi = ck.n(50, 600)
     progs.append(witness_getvars())
     origin.append("builtin")
     for _ in range(nbi):
